@@ -13,6 +13,7 @@ import (
 	"math/rand"
 	"os"
 	"path/filepath"
+	"reflect"
 	"regexp"
 	"sort"
 	"strconv"
@@ -54,6 +55,7 @@ type cliConf struct {
 	GasLimit    uint     `json:"target_gas_limit_flag"` // 0: flag not given
 	Consensus   string   `json:"consensus_protocol,omitempty"`
 	Name        string   `json:"name"`
+	AmountOrder string   `json:"amount_order,omitempty"`
 
 	net netInfo
 }
@@ -214,7 +216,7 @@ func (c cliConf) testnetArgs() []string {
 
 // writeDefinition builds an (unsigned) definition of the requested version through the exported
 // constructor and writes it to a file for --definition-file.
-func writeDefinition(conf cliConf, rng *rand.Rand, dir string) (string, error) {
+func writeDefinition(conf cliConf, rng *rand.Rand, dir string) (string, *cluster.Definition, error) {
 	minor := minorOf(conf.DefVersion)
 	var fee, wd []string
 	for i := range conf.Validators {
@@ -246,15 +248,23 @@ func writeDefinition(conf cliConf, rng *rand.Rand, dir string) (string, error) {
 		"0x"+hex.EncodeToString(conf.net.ForkVersion[:]), cluster.Creator{}, ops, amounts, conf.Consensus, gas, conf.Compounding,
 		rng, opt)
 	if err != nil {
-		return "", err
+		return "", nil, err
 	}
 	b, err := json.MarshalIndent(def, "", " ")
 	if err != nil {
-		return "", err
+		return "", nil, err
+	}
+	// What create cluster will read is the file, so the reference is the decoded file.
+	var input cluster.Definition
+	if err := json.Unmarshal(b, &input); err != nil {
+		return "", nil, err
+	}
+	if err := input.VerifyHashes(); err != nil {
+		return "", nil, fmt.Errorf("definition written by the harness does not verify: %w", err)
 	}
 	p := filepath.Join(dir, "cluster-definition.json")
 
-	return p, os.WriteFile(p, b, 0o600)
+	return p, &input, os.WriteFile(p, b, 0o600)
 }
 
 var cliMu sync.Mutex // one `create cluster` at a time, as in a real process
@@ -362,9 +372,13 @@ func copyNodeDir(src, dst string) error {
 }
 
 func runCLICase(c *kit.Case, idx int) {
+	runCLIConf(c, idx, genCLIConf(idx, c.Rng), 0)
+}
+
+// runCLIConf runs one create-cluster configuration. maxSubsets > 0 caps the combine subsets.
+func runCLIConf(c *kit.Case, idx int, conf cliConf, maxSubsets int) {
 	r := c.R
 	rng := c.Rng
-	conf := genCLIConf(idx, rng)
 	viol := func(rule, what string, extra map[string]any) {
 		w := map[string]any{"config": conf}
 		for k, v := range extra {
@@ -382,10 +396,14 @@ func runCLICase(c *kit.Case, idx int) {
 	clusterDir := filepath.Join(tmp, "cluster")
 
 	args := []string{"create", "cluster", "--cluster-dir", clusterDir, "--insecure-keys"}
-	var origSecrets []tbls.PrivateKey
+	var (
+		origSecrets []tbls.PrivateKey
+		inputDef    *cluster.Definition
+	)
 	switch conf.Mode {
 	case "definition-file":
-		defPath, err := writeDefinition(conf, rng, tmp)
+		var defPath string
+		defPath, inputDef, err = writeDefinition(conf, rng, tmp)
 		if err != nil {
 			r.Inconclusive("W1 case %d: cannot build definition %+v: %v", idx, conf, err)
 			return
@@ -547,6 +565,61 @@ func runCLICase(c *kit.Case, idx int) {
 		}
 		if lock.TargetGasLimit != wantGas {
 			mismatch("target_gas_limit", lock.TargetGasLimit, wantGas)
+		}
+	}
+
+	// ---- definition-file flow: the lock's definition is the input definition ---------------------------
+	if inputDef != nil {
+		r.Count("deffile_runs", 1)
+		r.Seen("deffile_amount_orders", fmt.Sprintf("%s %s %v compounding=%v", lock.Version, conf.AmountOrder, conf.Amounts, conf.Compounding))
+		w := map[string]any{"lock": string(lockBytes), "input_definition": inputDef}
+		changed := func(field string, got, want any) {
+			w["got"], w["want"] = got, want
+			viol("definition-file/hashed-field-changed/"+field, fmt.Sprintf("lock definition %s = %v, the definition file it was created from says %v", field, got, want), w)
+		}
+		if !bytes.Equal(lock.ConfigHash, inputDef.ConfigHash) {
+			w["got"], w["want"] = hex.EncodeToString(lock.ConfigHash), hex.EncodeToString(inputDef.ConfigHash)
+			viol("definition-file/config-hash-changed", fmt.Sprintf("config_hash of the written lock is %x, the definition file's is %x", lock.ConfigHash, inputDef.ConfigHash), w)
+		}
+		ld := lock.Definition
+		for _, f := range []struct {
+			name      string
+			got, want any
+		}{
+			{"uuid", ld.UUID, inputDef.UUID}, {"name", ld.Name, inputDef.Name}, {"version", ld.Version, inputDef.Version},
+			{"timestamp", ld.Timestamp, inputDef.Timestamp}, {"num_validators", ld.NumValidators, inputDef.NumValidators},
+			{"threshold", ld.Threshold, inputDef.Threshold}, {"dkg_algorithm", ld.DKGAlgorithm, inputDef.DKGAlgorithm},
+			{"fork_version", hex.EncodeToString(ld.ForkVersion), hex.EncodeToString(inputDef.ForkVersion)},
+			{"creator", canon(reflect.ValueOf(ld.Creator)), canon(reflect.ValueOf(inputDef.Creator))},
+			{"validators", canon(reflect.ValueOf(ld.ValidatorAddresses)), canon(reflect.ValueOf(inputDef.ValidatorAddresses))},
+			{"deposit_amounts", canon(reflect.ValueOf(ld.DepositAmounts)), canon(reflect.ValueOf(inputDef.DepositAmounts))},
+			{"consensus_protocol", ld.ConsensusProtocol, inputDef.ConsensusProtocol},
+			{"target_gas_limit", ld.TargetGasLimit, inputDef.TargetGasLimit}, {"compounding", ld.Compounding, inputDef.Compounding},
+		} {
+			if !reflect.DeepEqual(f.got, f.want) {
+				changed(f.name, f.got, f.want)
+			}
+		}
+		// Operators: create cluster fills in the ENRs it generated (nothing else); the definition hash of
+		// the lock must be the input definition's with exactly those operators.
+		for i, op := range ld.Operators {
+			in := inputDef.Operators[i]
+			if op.Address != in.Address || !bytes.Equal(op.ConfigSignature, in.ConfigSignature) || !bytes.Equal(op.ENRSignature, in.ENRSignature) {
+				changed(fmt.Sprintf("operators[%d]", i), canon(reflect.ValueOf(op)), canon(reflect.ValueOf(in)))
+			}
+		}
+		exp := *inputDef
+		exp.Operators = ld.Operators
+		if exp, err := exp.SetDefinitionHashes(); err != nil {
+			r.Inconclusive("W1: hash of input definition with lock operators: %v", err)
+		} else if !bytes.Equal(exp.DefinitionHash, ld.DefinitionHash) {
+			w["got"], w["want"] = hex.EncodeToString(ld.DefinitionHash), hex.EncodeToString(exp.DefinitionHash)
+			viol("definition-file/definition-hash-changed", "definition_hash of the written lock is not the hash of the input definition completed with the lock's operator ENRs", w)
+		}
+		if bytes.Equal(inputDef.DefinitionHash, ld.DefinitionHash) {
+			r.Count("deffile_definition_hash_equal_to_file", 1)
+		} else {
+			r.Count("deffile_definition_hash_differs_only_by_operator_enrs", 1)
 		}
 	}
 
@@ -770,6 +843,11 @@ func runCLICase(c *kit.Case, idx int) {
 			subsets = subsets[:limit]
 		}
 	}
+	if maxSubsets > 0 && len(subsets) > maxSubsets {
+		exhaustive = false
+		rng.Shuffle(len(subsets), func(i, j int) { subsets[i], subsets[j] = subsets[j], subsets[i] })
+		subsets = subsets[:maxSubsets]
+	}
 	var testnet eth2util.Network
 	for si, subset := range subsets {
 		in := filepath.Join(tmp, fmt.Sprintf("in%d", si))
@@ -830,4 +908,72 @@ func runCLICase(c *kit.Case, idx int) {
 
 	c.NonTrivial(kit.Hash("cli", conf.Mode, conf.DefVersion, conf.Nodes, conf.expThreshold(), conf.Validators, conf.Network, conf.Amounts, conf.Compounding, len(conf.FeeAddrs), len(conf.WdAddrs), conf.GasLimit, conf.Consensus))
 	r.Sample(map[string]any{"workload": "W1", "config": conf, "lock_version": lock.Version, "subsets_combined": len(subsets), "all_subsets": exhaustive})
+}
+
+// Deposit-amount sets (ETH) of the definition-file block, by order class. Every amount is within
+// [1, 32] (non-compounding) / [1, 2048] (compounding) and every set sums to at least 32.
+var defFileAmountSets = map[bool]map[string][][]int{
+	false: {
+		"ascending":   {{1, 31}, {8, 24}, {4, 12, 16}, {1, 2, 29}},
+		"descending":  {{31, 1}, {24, 8}, {16, 12, 4}, {32, 1}, {29, 2, 1}},
+		"duplicates":  {{16, 16}, {8, 8, 8, 8}, {8, 16, 8}, {16, 8, 8, 16}, {31, 1, 31}},
+		"top-up-last": {{16, 8, 8}, {32, 1, 1}, {16, 16, 1}, {20, 12, 1}},
+		"unsorted":    {{8, 1, 23}, {2, 29, 1}, {12, 4, 16}},
+		"single":      {{32}},
+		"absent":      {nil},
+	},
+	true: {
+		"ascending":   {{1, 32, 64}, {32, 2048}},
+		"descending":  {{256, 32, 1}, {2048, 1}, {64, 32}},
+		"duplicates":  {{64, 32, 64}, {32, 32}, {1000, 1, 1000}},
+		"top-up-last": {{32, 32, 1}, {2048, 31, 1}},
+		"unsorted":    {{32, 1, 2048}, {8, 256, 1, 32}},
+		"single":      {{2048}, {32}},
+		"absent":      {nil},
+	},
+}
+
+var defFileOrders = []string{"ascending", "descending", "duplicates", "top-up-last", "unsorted", "single", "absent"}
+
+// defFileVersions are the format versions that carry deposit amounts (partial deposits).
+var defFileVersions = []string{"v1.8.0", "v1.9.0", "v1.10.0", "v1.11.0"}
+
+// genDefFileConf derives case j of the definition-file block: version and order class cycle so that
+// every (version, order) pair appears in every tier; shapes are small because combine and the other
+// artifact checks are exercised at full size by the first block.
+func genDefFileConf(j int, rng *rand.Rand, thorough bool) cliConf {
+	conf := cliConf{Mode: "definition-file"}
+	conf.DefVersion = defFileVersions[j%len(defFileVersions)]
+	conf.AmountOrder = defFileOrders[(j/len(defFileVersions))%len(defFileOrders)]
+	minor := minorOf(conf.DefVersion)
+	conf.Nodes = 3 + rng.Intn(2)
+	if thorough {
+		conf.Nodes = 3 + rng.Intn(8)
+	}
+	conf.Threshold = 2 + rng.Intn(conf.Nodes-1)
+	conf.Validators = 1 + rng.Intn(2)
+	var nets []netInfo
+	for _, n := range networks {
+		if n.Name != "mainnet" && n.Name != "gnosis" && n.Name != "prater" && !n.Custom {
+			nets = append(nets, n)
+		}
+	}
+	conf.net = nets[rng.Intn(len(nets))]
+	conf.Network = conf.net.Name
+	conf.Compounding = minor >= 10 && rng.Intn(2) == 0
+	sets := defFileAmountSets[conf.Compounding][conf.AmountOrder]
+	conf.Amounts = sets[rng.Intn(len(sets))]
+	for range conf.Validators {
+		conf.FeeAddrs = append(conf.FeeAddrs, randAddr(rng, true))
+		conf.WdAddrs = append(conf.WdAddrs, randAddr(rng, true))
+	}
+	if minor >= 10 {
+		conf.GasLimit = uint(30000000 + 1000000*rng.Intn(60))
+	}
+	if minor >= 9 && rng.Intn(2) == 0 {
+		conf.Consensus = "qbft"
+	}
+	conf.Name = fmt.Sprintf("verif-c12-deffile-%d", j)
+
+	return conf
 }
